@@ -503,7 +503,10 @@ def apply(ents, st, kind, site, rng_val=0):
     elif kind == "value":
         e = ents[site]
         num = e["pic"] in PICS_NUM
-        st["e"][site]["value"] = (["ZERO", "0", "1.5", "+12", "ZEROS"] if num else ["SPACES", "'A'", "'A B.C'", "\"Q\"", "'X, Y'"])[v % 5]
+        st["e"][site]["value"] = (["ZERO", "0", "1.5", "+12", "ZEROS"] if num else
+                                  ["SPACES", "'A'", "'A B.C'", "\"Q\"", "'X, Y'",
+                                   # lower-case words that only LOOK like reserved words: the decoder's second parse is case-sensitive
+                                   "'binary'", "'comp-3 rate'", "'pic x(9)'", "'display it'", "\"usage is comp\""])[v % (5 if num else 10)]
         st["e"][site]["value_is"] = bool(v & 1)
     elif kind == "value_kw":
         st["e"][site]["value"] = ["'BINARY'", "'COMP-3'", "'PIC X(9)'", "'USAGE COMP'"][v % 4]
